@@ -346,4 +346,119 @@ theorem midLits_lowerLit (ts : List Tok) : midLits (ts.map Tok.lowerLit) = midLi
       | nil => rfl
       | cons a as => rfl
 
+
+/-! ### the specification without positions: the line is an instance of the pattern -/
+
+/-- `v₁ lit₁ v₂ lit₂ …` -/
+def bodyOf (ts : List Tok) (vs : List Bytes) : Bytes := ((vs.zip ts).map fun vt => vt.1 ++ vt.2.lit).flatten
+
+theorem endsOpen_cons_cons (t t' : Tok) (ts : List Tok) : endsOpen (t :: t' :: ts) = endsOpen (t' :: ts) := by
+  simp [endsOpen, List.getLast?_cons_cons]
+
+theorem isSplit_of_text {line : Bytes} : ∀ (ts : List Tok) (vs : List Bytes) (pos : Nat) (rest : Bytes),
+    midLits ts = true → vs.length = ts.length → line.drop pos = bodyOf ts vs ++ rest → pos ≤ line.length →
+    (endsOpen ts = true → rest = []) → IsSplit line ts pos (vs.map List.length) := by
+  intro ts
+  induction ts with
+  | nil =>
+    intro vs pos rest _ hl _ _ _
+    have : vs = [] := List.length_eq_zero_iff.mp (by simpa using hl)
+    subst this; simp [IsSplit]
+  | cons t ts ih =>
+    intro vs pos rest hm hl htext hp hopen
+    match vs, hl with
+    | v :: vs, hl =>
+      have hl' : vs.length = ts.length := by simpa using hl
+      simp only [bodyOf, List.zip_cons_cons, List.map_cons, List.flatten_cons] at htext
+      have hlen := congrArg List.length htext
+      simp only [List.length_drop, List.length_append] at hlen
+      have hdrop : line.drop (pos + v.length) = t.lit ++ (bodyOf ts vs ++ rest) := by
+        rw [← List.drop_drop, htext]
+        simp [bodyOf, List.append_assoc]
+      have hdrop2 : line.drop (pos + v.length + t.lit.length) = bodyOf ts vs ++ rest := by
+        rw [← List.drop_drop, hdrop]; simp
+      simp only [List.map_cons, IsSplit]
+      refine ⟨by omega, ?_, ?_⟩
+      · by_cases hlit : t.lit = []
+        · simp only [hlit, if_true]
+          have hts : ts = [] := by
+            cases ts with
+            | nil => rfl
+            | cons t' ts' => simp [midLits, hlit] at hm
+          subst hts
+          have hvs : vs = [] := List.length_eq_zero_iff.mp (by simpa using hl')
+          subst hvs
+          have hr : rest = [] := hopen (by simp [endsOpen, hlit])
+          subst hr
+          simp [hlit] at hlen
+          omega
+        · simp only [hlit, if_false]
+          rw [hdrop]; exact List.prefix_append _ _
+      · have hmts : midLits ts = true := by
+          cases ts with
+          | nil => rfl
+          | cons t' ts' => simp [midLits] at hm; exact hm.2
+        apply ih vs _ rest hmts hl' hdrop2 (by omega)
+        intro ho
+        cases ts with
+        | nil => simp [endsOpen] at ho
+        | cons t' ts' => exact hopen (by rw [endsOpen_cons_cons]; exact ho)
+
+theorem isSplit_end_of_open {line : Bytes} : ∀ (ts : List Tok) (pos : Nat) (ns : List Nat),
+    IsSplit line ts pos ns → endsOpen ts = true → (capsOf ts pos ns).2 = line.length := by
+  intro ts
+  induction ts with
+  | nil => intro pos ns _ ho; simp [endsOpen] at ho
+  | cons t ts ih =>
+    intro pos ns h ho
+    match ns, h with
+    | n :: ns, h =>
+      simp only [IsSplit] at h
+      simp only [capsOf]
+      cases ts with
+      | nil =>
+        have hlit : t.lit = [] := by simpa [endsOpen] using ho
+        have h2 := h.2.1
+        simp only [hlit, if_true] at h2
+        have hns : ns = [] := by simpa [IsSplit] using h.2.2
+        subst hns
+        simp [capsOf, hlit, h2]
+      | cons t' ts' =>
+        exact ih _ _ h.2.2 (by rw [endsOpen_cons_cons] at ho; exact ho)
+
+/-- **Readings and instances are the same thing**: the line has a reading (`IsMatch`) iff it is an
+instance of the pattern (`IsInstance`: `before ++ lit₀ v₁ lit₁ … ++ after`). -/
+theorem isInstance_iff_isMatch (p : Pat) (hm : midLits p.toks = true) (line : Bytes) :
+    IsInstance p line ↔ ∃ s ns, IsMatch p line s ns := by
+  constructor
+  · rintro ⟨a, vs, rest, hl, htext, hopen⟩
+    have hlen := congrArg List.length htext
+    simp only [instantiate, List.length_append] at hlen
+    have hd : line.drop a.length = p.pre ++ (bodyOf p.toks vs ++ rest) := by
+      rw [htext]; simp [instantiate, bodyOf, List.append_assoc]
+    have hd2 : line.drop (a.length + p.pre.length) = bodyOf p.toks vs ++ rest := by
+      rw [← List.drop_drop, hd]; simp
+    exact ⟨a.length, vs.map List.length, by omega, by rw [hd]; exact List.prefix_append _ _,
+      isSplit_of_text p.toks vs _ rest hm hl hd2 (by omega) hopen⟩
+  · rintro ⟨s, ns, hb, hpre, hsplit⟩
+    obtain ⟨h1, h2, h3⟩ := split_span hsplit hb
+    refine ⟨line.take s, valuesOf line p.toks (s + p.pre.length) ns,
+      line.drop (capsOf p.toks (s + p.pre.length) ns).2, valuesOf_length (IsSplit_length hsplit), ?_, ?_⟩
+    · generalize hE : (capsOf p.toks (s + p.pre.length) ns).2 = E at h1 h2 h3
+      simp only [instantiate, ← h1]
+      have e1 : line.drop s = p.pre ++ line.drop (s + p.pre.length) := by
+        rw [← List.drop_drop]
+        conv => lhs; rw [← List.take_append_drop p.pre.length (line.drop s)]
+        rw [take_of_prefix hpre]
+      have e2 : line.drop (s + p.pre.length) =
+          (line.drop (s + p.pre.length)).take (E - (s + p.pre.length)) ++ line.drop E := by
+        conv => lhs; rw [← List.take_append_drop (E - (s + p.pre.length)) (line.drop (s + p.pre.length))]
+        rw [List.drop_drop]
+        congr 2; omega
+      conv => lhs; rw [← List.take_append_drop s line, e1, e2]
+      simp [List.append_assoc]
+    · intro ho
+      rw [isSplit_end_of_open _ _ _ hsplit ho]
+      simp
+
 end Rare.C12
